@@ -357,8 +357,9 @@ def _alr_contract(name, languages_ty, props, general=False):
         },
         canaries={"no-lookups": f"len({_ST}) == {_N0} + 2"},
         loops=_alr_loops(general),
-        # position-wise view of `statements == st0 + new` (proved once, then used by the postconditions)
-        hints={"for language in languages or ():": [f"all(n < len(st0) or {_ST}[n] == new[n - len(st0)] for n in range(len({_ST})))"]},
+        # after the last loop the statement list is re-bound to the term `st0 + new` (proved equal first): positions of the
+        # postconditions then resolve into st0 / new without sequence reasoning
+        hints={"for language in languages or ():": ["feature.statements := st0 + new"]},
         globals={"fresh": _native_fresh},
         # ghost: the statements at entry, and the list of statements created so far
         ghost_vars={"st0": (List(Ref("FeaStmt")), "feature.statements"), "new": (List(Ref("FeaStmt")), "[]")},
@@ -376,7 +377,8 @@ def _alr_loops(general):
     # the statements made so far are new objects that exist now (the one created next is yet another object)
     new = "all(fresh(new[b]) and allocated(new[b]) for b in range(len(new)))"
     head = "new[0].kind == 'script' and new[0].script == script and new[1].kind == 'language' and new[1].language == 'dflt' and new[1].include_default"
-    refs = "all(new[2 + b].kind == 'lookupref' and new[2 + b].lookup == lookups[b] for b in range({n}))"
+    # (plain positions n, offsets on the other side: index arithmetic inside new[..] defeats the solvers' triggers)
+    refs = "all(n < 2 or n >= 2 + {n} or (new[n].kind == 'lookupref' and new[n].lookup == lookups[n - 2]) for n in range(len(new)))"
     loops = {"for lookup in lookups#3": Loop(index="j", invariants={
         "shape": f"{_ST} == st0 + new and len(new) == 2 + j", "untouched": untouched, "new": new, "head": head, "refs": refs.format(n="j")})}
     if general:
@@ -384,7 +386,7 @@ def _alr_loops(general):
         loops["for language in languages or ()"] = Loop(index="q", invariants={
             "shape": f"{_ST} == st0 + new and len(new) == 2 + len(lookups) + len({nd})", "untouched": untouched, "new": new, "head": head,
             "refs": refs.format(n="len(lookups)"),
-            "langs": f"all(new[2 + len(lookups) + b].kind == 'language' and new[2 + len(lookups) + b].include_default and new[2 + len(lookups) + b].language == {nd}[b] for b in range(len({nd})))",
+            "langs": f"all(n < 2 + len(lookups) or (new[n].kind == 'language' and new[n].include_default and new[n].language == {nd}[n - 2 - len(lookups)]) for n in range(len(new)))",
         })
     return loops
 
